@@ -10,8 +10,8 @@
               The item codec (`Dtype.build` / `Dtype.read_fn`) is a parameter `Codec V`; theorems hold for every
               codec that satisfies the stated hypotheses, the driver instantiates it for the registered dtypes.
 
-  The model assumes `dtype.length > 0` (`Array('u0')` can be created but every method divides by zero; the driver
-  rejects such lines) and msb0 mode.
+  `_set_dtype` refuses a dtype of bit length 0 (`Codec.valid`), so every Array has `0 < w`: the hypothesis `0 < c.w` of
+  the theorems is an invariant of the code.  msb0 mode.
 -/
 import BitstringModel.Model.Basic
 namespace BM.C14
@@ -111,8 +111,16 @@ structure Arr (V : Type) where
   c : Codec V
   d : Bits
 
-/-- `a.dtype = new` (array_.py:149-169): only `_dtype` is replaced. -/
+/-- `_set_dtype` (array_.py:153-172) accepts only a fixed, non-zero bit length. -/
+def Codec.valid {V} (c : Codec V) : Bool := c.w != 0
+
+/-- `a.dtype = new` (array_.py:149-172): only `_dtype` is replaced (after the checks of `_set_dtype`: see
+    `Arr.setDtype?`). -/
 def Arr.setDtype {V} (a : Arr V) (c2 : Codec V) : Arr V := ⟨c2, a.d⟩
+
+/-- The setter with its check: a refused dtype leaves the Array as it was. -/
+def Arr.setDtype? {V} (a : Arr V) (c2 : Codec V) : Arr V × Except Err Unit :=
+  if c2.valid then (a.setDtype c2, .ok ()) else (a, .error .value)
 
 /-! ## ALG: `BitArray` primitives by their list-of-bits meaning -/
 
@@ -766,7 +774,7 @@ def codecOfStr? (s : String) : Option (Codec Val) :=
   match s.splitOn "/" with
   | [_, k, name, l, m, rt, sg] =>
     match kindOfStr? k, l.toNat?, m.toNat?, rtOfStr? rt with
-    | some k, some l, some m, some rt => if l = 0 ∨ m = 0 then none else some (mkCodec k name l m rt (sg == "1"))
+    | some k, some l, some m, some rt => some (mkCodec k name l m rt (sg == "1"))
     | _, _, _, _ => none
   | _ => none
 
@@ -864,8 +872,11 @@ def stepOp (s : St) (f : List String) : Option (String × St × Bool) :=
       | .ok d2 => some ("b:" ++ (if equals c d c2 d2 then "1" else "0"), s, false)
       | .error _ => none
     | _, _, _ => none
-  | ["dtype", dt] => (codecOfStr? dt).map fun c2 => ("-", s.setDtype c2, false)
-  | ["astype", dt] => (codecOfStr? dt).map fun c2 => (arrTok c2 (astype c d c2), s, false)
+  | ["dtype", dt] => (codecOfStr? dt).map fun c2 =>
+      let r := s.setDtype? c2
+      (unitTok r.2, r.1, false)
+  | ["astype", dt] => (codecOfStr? dt).map fun c2 =>
+      if c2.valid then (arrTok c2 (astype c d c2), s, false) else ("e", s, false)
   | ["bswap"] => mut1 (byteswap c d)
   | ["tobytes"] => some ("x:" ++ bitsToWire (tobytes d), s, false)
   | ["ff", nb, n] =>
@@ -984,6 +995,7 @@ def handle (args : List String) : String :=
   | "hist" :: dt :: ini :: tr :: ops =>
     match codecOfStr? dt, initOfStr? ini, optBitsOfStr? tr with
     | some c, some ini, some tr =>
+      if !c.valid then "err" else
       match init c ini tr with
       | .error _ => "err"
       | .ok d =>
